@@ -249,10 +249,10 @@ impl Comparison {
     pub(crate) fn compare(&self, left: &DbValue) -> bool {
         match self {
             Comparison::Equal(right) => left == right,
-            Comparison::GreaterThan(right) => left > right,
-            Comparison::GreaterThanOrEqual(right) => left >= right,
-            Comparison::LessThan(right) => left < right,
-            Comparison::LessThanOrEqual(right) => left <= right,
+            Comparison::GreaterThan(right) => Self::same_type(left, right) && left > right,
+            Comparison::GreaterThanOrEqual(right) => Self::same_type(left, right) && left >= right,
+            Comparison::LessThan(right) => Self::same_type(left, right) && left < right,
+            Comparison::LessThanOrEqual(right) => Self::same_type(left, right) && left <= right,
             Comparison::NotEqual(right) => left != right,
 
             Comparison::Contains(right) => match (left, right) {
@@ -311,6 +311,12 @@ impl Comparison {
                 _ => false,
             },
         }
+    }
+
+    // The comparisons are type strict: values of different
+    // types are never ordered relative to each other.
+    fn same_type(left: &DbValue, right: &DbValue) -> bool {
+        std::mem::discriminant(left) == std::mem::discriminant(right)
     }
 
     pub(crate) fn value(&self) -> &DbValue {
